@@ -188,13 +188,55 @@ def _history_async(rng, n_msgs, rank, p_msg=0.62):
                 ev.append(msg)
             ev.append({"k": "got", "off": off, "len": ln, "ok": bool(ok)})
 
+        def do_burst(K):
+            """K one-record messages back to back (faster than the consumers drain the receive queue); positions lie
+            below the log section, which is all that the periodic refresh fetches"""
+            settle()
+            nsent, ntap = len(tr.sent), len(tap.log)
+            lim = max(4, spa.log_class.begin - 2)
+            chs = []
+            for j in range(K):
+                pos = rng.randrange(0, lim)
+                ch = [(pos, bytes([rng.randrange(256), rng.randrange(256)]))]
+                sim_struct.replace_status_block_segment(*ch[0])
+                chs.append(ch)
+                s.inject(s.peer.push_changes(s.client_parms(), ch), delay=0.0005 * j)
+            for _ in range(K * 4 + 60):
+                if sum(1 for e in tap.log[ntap:] if e["k"] == "pop" and "Partial" in e["by"]) >= K:
+                    break
+                s.advance(0.1)
+            s.advance(0.25)
+            inst = w.take()
+            acks = _acks(d for (_, d, _) in tr.sent[nsent:])
+            j = 0
+
+            def msg(j, applied):
+                return {"k": "msg", "ch": [{"pos": p_, "data": list(d_)} for p_, d_ in chs[j]], "applied": applied,
+                        "acks": acks[j:j + 1] if j < K - 1 else acks[j:], "burst": K, "queue": []}
+
+            for x in inst:
+                if "Partial" in x["by"] and j < K:
+                    ev.append(msg(j, [{"pos": x["pos"], "data": x["data"]}]))
+                    j += 1
+                elif "Partial" in x["by"]:
+                    ev[-1]["applied"].append({"pos": x["pos"], "data": x["data"]})
+                else:
+                    ev.append({"k": "refresh", "off": x["pos"], "data": x["data"]})
+            while j < K:
+                ev.append(msg(j, []))
+                j += 1
+
         for i in range(n_msgs):
             r = rng.random()
-            if i in (5, 11) or r > 0.97:
+            if i == 8:
+                do_burst(rng.choice([36, 48]))
+            elif i in (5, 11) or r > 0.97:
                 ln = rng.choice([40, 78, 100, 200])
                 off = rng.randrange(0, 1024 - ln)
                 # (the simulator answers in whole 39-byte segments: the bytes actually fetched may exceed `ln`)
-                outside = [p for p in list(range(0, off - 1)) + list(range(off + -(-ln // 39) * 39, 1022))]
+                # (a periodic refresh of the log section may be the one in flight: positions also lie below it)
+                outside = [p for p in list(range(0, off - 1)) + list(range(off + -(-ln // 39) * 39, 1022))
+                           if p < spa.log_class.begin - 1]
                 if not outside:
                     continue
                 ch = [(rng.choice(outside), bytes([rng.randrange(256), rng.randrange(256)]))
@@ -323,6 +365,9 @@ def run(ctx):
     # one long history per stack so that the acknowledgement counter passes its wrap
     logs.append(_history_async(rng, 230, "stable", p_msg=0.95))
     logs.append(_history_sync(rng, 230, p_msg=0.95))
+    import os, json as _j
+    if os.environ.get("GV_DUMP"):
+        _j.dump(logs, open(os.environ["GV_DUMP"], "w"))
     nontriv = set()
     for variant in ("async", "sync"):
         group = [l for l in logs if l["variant"] == variant]
